@@ -1688,10 +1688,12 @@ Plan gen_C16(std::uint64_t seed, int tier) {
     Gen g(seed, tier);
     g.p.prop = "C16";
     g.p.profile = "sched";
-    std::vector<std::string> pool = {"rel", "dbg", "ind", "map", "cind", "sdbg"};
+    std::vector<std::string> pool = {"rel", "dbg", "ind", "map",
+                                     "cind", "sdbg", "thr", "vec"};
     g.r.shuffle(pool);
     pool.resize(2);
     g.p.pols = pool;
+    bool small = small_ids_policy(pool[0]) || small_ids_policy(pool[1]);
     BasicOpts o;
     o.max_cls = 8;
     o.min_meth = 2;
@@ -1702,7 +1704,7 @@ Plan gen_C16(std::uint64_t seed, int tier) {
             g.r.chance(0.2)
         ? 2
         : 1;
-    basic_world(g, o, false);
+    basic_world(g, o, small);
     auto all = basic_registry(g, o, 0);
     g.ev_load(g.order(all));
     g.ev_update(0);
